@@ -37,6 +37,7 @@ def cases(draw: Any) -> Dict[str, Any]:
         docs=draw(st.sampled_from(["none", "plain", "plain", "adversarial"])),
         adversarial_text=draw(st.booleans()),
         invariants=draw(st.sampled_from(["general", "general", "schema", "none"])),
+        defaults=draw(st.integers(0, 3)) == 0,
     )
     spec = draw(mmgen.specs(opts))
     deficient = None
